@@ -391,7 +391,10 @@ def r16_saved_values(ctx):
     for mtype, attr, first, value, payload in (('set_tempo', 'tempo', 400000, 500000, [0xff, 0x51, 3, 0x07, 0xa1, 0x20]),
                                                ('set_tempo', 'tempo', 500000, 0x123456, [0xff, 0x51, 3, 0x12, 0x34, 0x56]),
                                                ('sequence_number', 'number', 1, 0x1234, [0xff, 0x00, 2, 0x12, 0x34]),
-                                               ('channel_prefix', 'channel', 0, 9, [0xff, 0x20, 1, 9])):
+                                               ('channel_prefix', 'channel', 0, 9, [0xff, 0x20, 1, 9]),
+                                               ('smpte_offset', 'sub_frames', 0, 40, [0xff, 0x54, 5, 0, 0, 0, 0, 40]),
+                                               ('smpte_offset', 'frames', 0, 23, [0xff, 0x54, 5, 0, 0, 0, 23, 0]),
+                                               ('key_signature', 'key', 'C', 'Bb', [0xff, 0x59, 2, 0xfe, 0])):
         n += 1
         holder = {}
 
@@ -415,7 +418,7 @@ def r16_saved_values(ctx):
         ctx.require(ok, 'R16.11', f'save; msg.{attr} = {value}; save', w,
                     f'the second save writes {[x for x in flat if not isinstance(x, wire.Field)]}; it must contain {" ".join(f"{b_:02X}" for b_ in payload)}',
                     construct=f'{save.qname}::saved-value({mtype})')
-    ctx.floor('R16.11', n, 4)
+    ctx.floor('R16.11', n, 7)
     for q in ai.inlined:
         ctx.functions.add(q)
 
@@ -466,4 +469,68 @@ def r16_save_leaves_contents(ctx):
         ctx.functions.add(q)
 
 
-RULES = [('R16.13', r16_save_leaves_contents), ('R16.12', r16_play_schedule), ('R16.11', r16_saved_values), ('R16.10', r16_inplace), ('R16.9', r16_attribute_edit), ('R16.8', r16_refused_edit), ('R16.7', r16_merge), ('R16.6', r16_6), ('R16.1', r16_1), ('R16.2', r16_2), ('R16.3', r16_3), ('R16.4', r16_4), ('R16.5', r16_5)]
+def r16_save_by_name(ctx):
+    """save(filename) after an edit leaves exactly the bytes of the current contents in the file, whatever an earlier save left
+    there: the file of that name is opened for writing from scratch.  Decided on the calls: the stream that is written to comes
+    from open(<that name>, 'wb') - or from a descriptor that os.open() made with O_TRUNC; a descriptor opened without it keeps
+    the tail of a longer earlier version behind the new contents."""
+    import os as _os
+    ai = smf.make_interp(ctx)
+    cls = ctx.p.cls(MF, 'MidiFile')
+    o, save = ctx.p.lookup_method(cls, 'save')
+    ctx.fn(save)
+    w = ctx.where(save)
+    seen = {'opens': [], 'fds': []}
+
+    def s_os_open(interp, args, kwargs, node):
+        fl = args[1] if len(args) > 1 else kwargs.get('flags')
+        seen['fds'].append((args[0] if args else None, fl))
+        return ('fd', len(seen['fds']) - 1)
+    ai.summaries['os.open'] = s_os_open
+
+    def s_open(interp, args, kwargs, node):
+        f_ = wire.AFile(name='out.mid')
+        seen['opens'].append((args[0] if args else kwargs.get('file'), args[1] if len(args) > 1 else kwargs.get('mode', 'r'), f_))
+        return f_
+    saved_open = ai.builtin_summaries.get('open')
+    ai.builtin_summaries['open'] = s_open
+    try:
+        def thunk():
+            seen['opens'].clear()
+            seen['fds'].clear()
+            mf = _mk_file(ctx, ai, [[('n', 3, 1), ('e', 0, None)]])
+            ai.call_function(save, [mf], {'filename': 'song.mid'})
+            return [(a, m, bool(f_.written)) for a, m, f_ in seen['opens']], list(seen['fds'])
+        outs = ai.explore(thunk)
+    finally:
+        if saved_open is None:
+            ai.builtin_summaries.pop('open', None)
+        else:
+            ai.builtin_summaries['open'] = saved_open
+    ok = len(outs) == 1 and outs[0].kind == 'return'
+    why = f'{outs}'
+    if ok:
+        opens, fds = outs[0].value
+        wrote = [(a, m) for a, m, used in opens if used]
+        ok = len(wrote) == 1
+        why = f'the contents are written to {len(wrote)} opened files: {opens}'
+        if ok:
+            a, m = wrote[0]
+            if a == 'song.mid':
+                ok = isinstance(m, str) and 'w' in m and 'b' in m and '+' not in m.replace('w+', '')
+                why = f'the file is opened with mode {m!r}; "wb" starts from an empty file'
+            elif isinstance(a, tuple) and len(a) == 2 and a[0] == 'fd':
+                path, fl = fds[a[1]]
+                need = _os.O_TRUNC | _os.O_CREAT
+                ok = path == 'song.mid' and isinstance(fl, int) and fl & need == need and fl & (_os.O_WRONLY | _os.O_RDWR)
+                why = (f'the file is written through a descriptor from os.open({path!r}, {fl!r}): without O_TRUNC (and O_CREAT) a longer '
+                       f'earlier version keeps its tail behind the new contents')
+            else:
+                ok = False
+                why = f'the stream written to comes from open({a!r}, {m!r}), not from the name given to save()'
+    ctx.require(ok, 'R16.14', "save(filename='song.mid')", w, why, construct=f'{save.qname}::opens-for-writing-from-scratch')
+    for q in ai.inlined:
+        ctx.functions.add(q)
+
+
+RULES = [('R16.14', r16_save_by_name), ('R16.13', r16_save_leaves_contents), ('R16.12', r16_play_schedule), ('R16.11', r16_saved_values), ('R16.10', r16_inplace), ('R16.9', r16_attribute_edit), ('R16.8', r16_refused_edit), ('R16.7', r16_merge), ('R16.6', r16_6), ('R16.1', r16_1), ('R16.2', r16_2), ('R16.3', r16_3), ('R16.4', r16_4), ('R16.5', r16_5)]
